@@ -1558,18 +1558,11 @@ class ClientRequest(ClientRequestBase):
             writer.send_headers()
             try:
                 await writer.drain()
-                # Enforce sock_read while waiting for the server's answer
-                read_timer = None
-                if (waiting := conn.protocol) is not None:
-                    waiting.start_timeout()
-                    read_timer = waiting._read_timeout_handle
                 # https://www.rfc-editor.org/rfc/rfc9110#section-10.1.1
-                # "SHOULD NOT wait for an indefinite period": send the body anyway
+                # "SHOULD NOT wait for an indefinite period": send the body anyway.
+                # The peer may be silent only because it waits for the body held
+                # back here, so sock_read starts once the request is sent.
                 await asyncio.wait((self._continue,), timeout=_EXPECT_CONTINUE_TIMEOUT)
-                if waiting is not None and waiting._read_timeout_handle is read_timer:
-                    # Nothing came in: the peer reads the body from now on, so
-                    # sock_read starts again once the request is sent.
-                    waiting._drop_timeout()
             except asyncio.CancelledError:
                 # Body hasn't been sent, so connection can't be reused
                 conn.close()
